@@ -223,7 +223,7 @@ func TestVerif_C02(t *testing.T) {
 			}
 		}
 	}
-	kit.Run(s, "programs_lockstep", kit.N{Quick: 30000, Thorough: 4000000}, c02Gen, c02Check)
+	kit.Run(s, "programs_lockstep", kit.N{Quick: 150000, Thorough: 4000000}, c02Gen, c02Check)
 }
 
 // FuzzVerif_C02: native coverage-guided fuzzing of the lock-step differential (thorough tier).
